@@ -815,7 +815,9 @@ def gen_route_case(rng, c: Ctx, idx):
     fixed = [([(2, (1, 2, 0)), (1, (8, 0, 0))], "natural_density", 1.0, "string"),
              ([(6, (6, 0, 0)), (6, (1, 2, 0))], "natural_density", 0.8765, "formula"),
              ([(1, (3, 6, 0)), (1, (9, 0, 0))], "natural_density", 2.635, "atoms"),
-             ([(1, (28, 58, 0)), (1, (8, 0, 0))], "density", 6.67, "formula")]
+             ([(1, (28, 58, 0)), (1, (8, 0, 0))], "density", 6.67, "formula"),
+             ([(1, (1, 2, 0))], "natural_density", 0.0708, "formula"),       # one isotope: the atom object itself is an argument
+             ([(1, (26, 54, 0))], "natural_density", 7.874, "string")]
     if idx < len(fixed):
         case.update(first=fixed[idx][0], mode=fixed[idx][1], value=fixed[idx][2], target=fixed[idx][3], energy=8.0,
                     by_wavelength=idx == 1, vector=False)
@@ -882,6 +884,88 @@ def run_route_case(c: Ctx, case):
                     name, case["target"], mode, v, " at density = natural density * mass / natural mass" if mode != "density" else ""))
             bad.append((what, dict(route=name, got=list(got), expected=list(want[:2]), density_expected=float(dens)),
                         "isotopes" if mode != "density" else "sld"))
+    bad.extend(run_route_calculators(c, case, struct, target, natural, kw, beam, want, w))
+    return bad
+
+
+def run_route_calculators(c: Ctx, case, struct, target, natural, kw, beam, want, w):
+    """the same (compound, density= | natural_density=, beam) through every *calculator* - xray_sld,
+    index_of_refraction, mirror_reflectivity - and for every kind of compound argument: the target of the case
+    (Formula without density / string / atoms dict), a Formula object that carries a density of its own (the keyword
+    given to the call names the density of the material, not the object's), the bare atom object when the compound
+    is one atom, and - at equal natural density - the all-natural compound.  Judged by the exact recomputation:
+    rho, irho = r_e*N_A*density/mass*sum(n*f) at density = the density given / natural density * mass / natural mass,
+    n = 1 - lambda^2/(2 pi)*(rho + i*irho)*1e-6, and the thick-mirror (Fresnel) reflectivity of that n."""
+    np = c.np
+    from periodictable import xsf
+    from periodictable.formulas import formula
+    bad = []
+    mode, v = case["mode"], case["value"]
+    by_w = case["by_wavelength"]
+    rel = 2e-8 if by_w else 2e-9
+    own = round(0.37 + 1.9 * v, 4)       # another density than the one asked for
+    args = [(case["target"], target),
+            ("Formula with its own density %r" % own, formula(pyside.struct_objs(struct, c.tbl), density=own))]
+    cnt = pyside.flat_counts(struct)
+    if len(cnt) == 1 and list(cnt.values())[0] == 1:
+        args.append(("atom object", pyside.atom_of(list(cnt)[0], c.tbl)))
+    if mode == "natural_density":
+        args.append(("all-natural compound", natural))
+        args.append(("all-natural compound with its own density %r" % own, formula(natural, density=own)))
+    lam = w
+    k = lam * lam / (2 * math.pi) * 1e-6
+    angles = [0.05, 0.3, 2.0]
+    nan = want[0] != want[0] or want[1] != want[1]
+    if not nan:
+        n_want = 1 - k * complex(want[0], want[1])
+        R_want = []
+        for a in angles:
+            ar = math.radians(a)
+            ki = 2 * math.pi / lam * math.sin(ar)
+            kf = 2 * math.pi / lam * cmath.sqrt(n_want * n_want - math.cos(ar) ** 2)
+            R_want.append(abs((ki - kf) / (ki + kf)) ** 2)
+    clause_d = "isotopes" if mode != "density" else None
+    for label, arg in args:
+        sc = 2 if "natural" in label else 1
+        for calc in ("xray_sld", "index_of_refraction", "mirror_reflectivity"):
+            info = dict(calculator=calc, argument=label)
+            try:
+                if calc == "xray_sld":
+                    r = xsf.xray_sld(arg, **dict(kw, **beam))
+                    got = [float(np.ravel(r[0])[0]), float(np.ravel(r[1])[0])]
+                elif calc == "index_of_refraction":
+                    r = complex(np.ravel(xsf.index_of_refraction(arg, **dict(kw, **beam)))[0])
+                    got = [r.real, r.imag]
+                else:
+                    r = np.asarray(xsf.mirror_reflectivity(arg, angle=angles, **dict(kw, **beam)))
+                    got = [float(x) for x in r[:, 0]]
+            except Exception as ex:  # noqa
+                bad.append(("%s(<%s>, %s=%r) raised %s: %s" % (calc, label, mode, v, type(ex).__name__, str(ex)[:100]), info, "raises"))
+                continue
+            tail = " at density = natural density * mass / natural mass (equal natural density, whichever isotopes are present)" \
+                if mode != "density" else ""
+            if calc == "xray_sld":
+                ok = xd.close_scaled(got[0], want[0], sc * want[2], rel=rel) and xd.close_scaled(got[1], want[1], sc * want[3], rel=rel)
+                what, clause, exp = "xray_sld(<%s>, %s=%r) is not r_e*N_A*density/mass*sum(n*f)%s" % (label, mode, v, tail), "sld", list(want[:2])
+            elif calc == "index_of_refraction":
+                if nan:
+                    ok = got[0] != got[0] or got[1] != got[1]
+                else:
+                    ok = xd.close_scaled(1 - got[0], k * want[0], sc * k * want[2] + 4e-7, rel=max(rel, 1e-8)) and \
+                        xd.close_scaled(-got[1], k * want[1], sc * k * want[3], rel=max(rel, 1e-8))
+                what, clause, exp = ("index_of_refraction(<%s>, %s=%r) is not 1 - lambda^2/(2 pi)*(rho + i*irho)*1e-6%s"
+                                     % (label, mode, v, tail)), "refraction", (None if nan else [n_want.real, n_want.imag])
+            else:
+                if any(x == x and not (-1e-12 <= x <= 1 + 1e-12) for x in got):
+                    bad.append(("mirror reflectivity outside [0, 1]", dict(info, R=got), "reflectivity"))
+                if nan:
+                    ok = True
+                else:
+                    ok = all(g == g and abs(g - x) <= 1e-6 * max(abs(g), abs(x)) + 1e-12 for g, x in zip(got, R_want))
+                what, clause, exp = ("mirror_reflectivity(<%s>, %s=%r) is not the thick-mirror reflectivity of the index of refraction "
+                                     "1 - lambda^2/(2 pi)*(rho + i*irho)*1e-6%s" % (label, mode, v, tail)), "reflectivity", (None if nan else R_want)
+            if not ok:
+                bad.append((what, dict(info, got=got, expected=exp, wavelength=lam, angle=angles), clause_d or clause))
     return bad
 
 
